@@ -304,4 +304,4 @@ def main(sess):
             sess.discharged('%s: 0..%d rows, every key assignment: one row per distinct key, COUNT and SUM of the block%s' % (fam, N, ', sorted' if order else ''),
                             family=fam, queries=box.get('paths', 1))
     from drivers import e2e
-    e2e.family_for(sess, 'C08', quick_n=4)
+    e2e.family_for(sess, 'C08', quick_n=6)
